@@ -170,6 +170,30 @@ func (n *LNNet) newInvoice(owner string, amountMsat uint64, desc string) (*LNInv
 	return li, nil
 }
 
+// ForgeInvoiceWithHash: an attacker's own BOLT11 invoice (signed with its own node key) that reuses
+// the payment hash of somebody else's invoice, for a different amount. Not registered anywhere:
+// nobody who could settle it knows the preimage.
+func (n *LNNet) ForgeInvoiceWithHash(hashHex string, amountMsat uint64) (string, error) {
+	hb, err := hex.DecodeString(hashHex)
+	if err != nil || len(hb) != 32 {
+		return "", fmt.Errorf("bad hash")
+	}
+	var h [32]byte
+	copy(h[:], hb)
+	var kb [32]byte
+	if _, err := rand.Read(kb[:]); err != nil {
+		return "", err
+	}
+	key := secp256k1.PrivKeyFromBytes(kb[:])
+	inv, err := zpay32.NewInvoice(&chaincfg.SigNetParams, h, time.Now(), zpay32.Description("forged"), zpay32.Expiry(time.Hour), zpay32.Amount(lnwire.MilliSatoshi(amountMsat)))
+	if err != nil {
+		return "", err
+	}
+	return inv.Encode(zpay32.MessageSigner{SignCompact: func(msg []byte) ([]byte, error) {
+		return ecdsa.SignCompact(key, msg, true), nil
+	}})
+}
+
 // NewExternalInvoice: an invoice of a merchant outside the system.
 func (n *LNNet) NewExternalInvoice(amountMsat uint64) *LNInvoice {
 	li, err := n.newInvoice("ext", amountMsat, "ext")
